@@ -480,3 +480,41 @@ def check_shorter_first(ctx, res, config="all"):
     else:
         res.ok("R8-shorter-first", b.path, {"selection": "lengths compared after low-zero stripping; shorter first on both edges; x, y single-assignment"})
     res.clause("C02: mac3 orders its operands (shorter, longer) by the lengths the regimes actually see (after stripping low zero digits, no later narrowing)")
+
+
+def check_mul_calls_no_long_division(ctx, res, config="all"):
+    """no multiplication entry point reaches the multi-digit (quadratic) division: a product that divides back costs at least
+    as much as schoolbook multiplication (the Toom-3 `/ 3` is a single-digit division and is fine)"""
+    facts = ctx.facts(config)
+    g = facts.callgraph()
+    entries = [b.path for b in facts.bodies if (b.trait in ("core::ops::Mul", "core::ops::MulAssign") and any("Big" in t for t in [b.self_ty or ""] + list(b.trait_args))) or b.path in ("biguint::multiplication::mac3", "biguint::multiplication::mul3")]
+    bad_targets = {"biguint::division::div_rem_core"}
+    reach = facts.reach_calls(entries)
+    hit = sorted(bad_targets & reach)
+    if len(entries) < 100:
+        res.fail(Finding("R8-anchor-lost", "mul-entries", "only %d multiplication entry points found" % len(entries), file="src/biguint/multiplication.rs", line=0))
+    if hit:
+        # name one entry and the chain
+        chain = None
+        for e in entries:
+            # BFS with parents
+            prev = {e: None}
+            q = [e]
+            while q and chain is None:
+                x = q.pop(0)
+                for y in g.get(x, ()):
+                    if y not in prev:
+                        prev[y] = x
+                        if y in bad_targets:
+                            c = [y]
+                            while prev[c[-1]] is not None:
+                                c.append(prev[c[-1]])
+                            chain = list(reversed(c))
+                            break
+                        q.append(y)
+            if chain:
+                break
+        res.fail(Finding("R8-mul-reaches-long-division", "div_rem_core", "a multiplication reaches the multi-digit division: %s" % " -> ".join(p.split("::")[-1] if "impl" not in p else p for p in (chain or hit)), facts.body(chain[0]) if chain else None, file=None if chain else "src"))
+    else:
+        res.ok("R8-mul-no-long-division", "call-graph", {"entries": len(entries), "reachable_functions": len(reach)})
+    res.clause("R8: no multiplication entry point reaches the multi-digit division (call-graph reachability, dev configuration incl. debug-only code)")
